@@ -27,6 +27,11 @@ CHECKS.update({
    text="Seeded exploration of shuffle configurations (n_in, n_out, max_branch around the staging thresholds, tasks and disk, key dtypes with nulls, index shuffles, ignore_index, output subsets, int-vs-float twin frames) under drawn schedules of the simulated cluster; the disk method additionally with a tiny partd buffer and injected ENOSPC / torn append / EIO faults. Invariants: every input row exactly once, equal keys in one partition, same partition number in the twin frame, a requested subset equals the full run's partitions, a failed store raises and the next fault-free compute is correct.",
    note="(n_in, n_out, max_branch) grid is sampled, not enumerated; partd faults at File.append/_get granularity.", ref="DESIGN.md §5 C12"),
 })
+CHECKS.update({
+ "C10": dict(technique="deterministic simulation: per-run randomised knob vectors (swarm) against a default-knob reference run on the simulated scheduler",
+   text="Seeded exploration: each generated query is recomputed under drawn knob vectors (split_every, split_out, shuffle_method keyword and config, max_branch, broadcast, npartitions hints, upsample, fuse, occasionally a drawn multi-worker schedule) with partition counts on both sides of the planner's selection thresholds; every run must equal the default-knob reference observation (row multiset). Probes record which algorithm (tree vs shuffle reduce, broadcast vs hash join, staged shuffle, presorted path) was actually selected.",
+   note="Configuration sampling in the swarm sense; reference is dask-expr itself at default knobs; three known findings are excluded from generation and re-checked by their own probes (known_findings.json).", ref="DESIGN.md §5 C10"),
+})
 PENDING = {}
 def main():
     checks = []
